@@ -103,6 +103,11 @@ def cond_programs(tier, seed):
     progs.append(Prog('via-macro/paren-define', [Def('LOG', 'lg'), Use('LOG', None, '\n', paren_items=[T('p', '\n'), Def('B', 'zz'), T('q', ' ')]),
                                                  Cond(False, [('B', [T('yB', '\n')])], [T('nB', '\n')])], ['A', 'B']))
     progs.append(Prog('via-macro/paren-use', [Def('LOG', 'lg'), Def('W', 'w8'), Use('LOG', None, '\n', paren_items=[Use('W', None, ' ')]), T('z', '\n')], ['A']))
+    # the predefined coverage constants are ordinary table entries: usable, redefinable, and a redefinition stays in force through
+    # later expansions and conditionals
+    progs.append(Prog('via-macro/sv-cov', [Use('SV_COV_CHECK', None, '\n'), Def('SV_COV_START', 's100'), Use('SV_COV_START', None, ' '), Use('SV_COV_START', None, '\n'),
+                                           Def('M', '`SV_COV_START', body_items=[Use('SV_COV_START', None, '')]), Use('M', None, ' '), Use('SV_COV_START', None, '\n'),
+                                           Cond(False, [('SV_COV_HIER', [T('yh', '\n')])], [T('nh', '\n')])], ['A']))
     if tier == 'thorough':
         rnd = random.Random(seed)
         # nesting depth 2, exhaustive over inner/outer names for ifdef/ifndef
@@ -211,6 +216,8 @@ def table_programs(tier, seed):
                                                    Cond(False, [('B', [T('yB', '\n')])], [T('nB', '\n')])], ['A', 'B']))
     progs.append(Prog('table/def-via-macro', [Def('MK', '`define B zz', body_items=[Def('B', 'zz')]), Use('MK', None, '\n'),
                                                Cond(False, [('B', [T('yB', '\n')])], [T('nB', '\n')])], ['A', 'B']))
+    progs.append(Prog('table/sv-cov-redefine', [Def('SV_COV_STOP', 's7'), Def('M', '`SV_COV_STOP', body_items=[Use('SV_COV_STOP', None, '')]), Use('M', None, '\n'),
+                                                Use('SV_COV_STOP', None, '\n')], ['A']))
     # macro names written as escaped identifiers: \\A and A name the same macro at every site (define, undef, conditionals, usage)
     progs.append(Prog('table/undef-escaped', [Def('M', 'x1'), Undef('\\M'), Undef('\\A'), Cond(False, [('A', [T('ya', '\n')])], [T('na', '\n')]),
                                               Cond(False, [('M', [T('ym', '\n')])], [T('nm', '\n')])], ['A']))
@@ -317,6 +324,12 @@ def include_programs(tier, seed):
         pgm = IncProg('inc/empty-top-path/' + lab, items, ['A'], files, include_paths=('p1',))
         pgm.top_path = ''
         progs.append(pgm)
+    progs.append(IncProg('inc/sv-cov-flow', [Def('SV_COV_START', 's5'), Inc('f.svh'), Use('SV_COV_START', None, '\n'), Use('SV_COV_HIER', None, '\n')], ['A'],
+                         {'f.svh': [Use('SV_COV_START', None, '\n'), Def('SV_COV_HIER', 'h99')]}, exists={'f.svh': True}))
+    # pass-through directives in front of an include of a file without final newline: the line end after the `include survives
+    for i, kd in enumerate(['`celldefine', '`endcelldefine', '`unconnected_drive pull0', '`nounconnected_drive', '`default_nettype none', '`resetall',
+                            '`timescale 1ns/1ps', '`line 3 "x.v" 0', '`pragma foo', '`begin_keywords "1800-2005"', '`end_keywords']):
+        progs.append(IncProg('inc/after-kept/%d' % i, [Kept(kd), T('a', '\n'), Inc('f.svh'), T('z', '\n')], ['A'], {'f.svh': [T('f0', '\n'), T('fc', '')]}, exists={'f.svh': True}))
     progs.append(IncProg('inc/macro-named-undefined', [Inc('f.svh', 'NOPE'), T('z', '\n')], ['A'], {'f.svh': F('fc')}))
     # same-line rule
     progs.append(IncProg('inc/line/tok-before', [T('a', ' '), Inc('f.svh'), T('z', '\n')], ['A'], {'f.svh': F('fc')}, exists={'f.svh': True}))
